@@ -420,6 +420,8 @@ def shard(args):
         if args['shard'] == 0:
             for n in list(range(0, 600)) + [1000, 4095, 4096, 4097, 99999]:
                 check_binary_search(ns, res, n)
+        if args['shard'] in (1, 2) and not res.vkeys.get('pickle-roundtrip'):
+            check_concurrent_allocation(ns, res, r)
         if args['shard'] == 0 and not res.vkeys.get('pickle-roundtrip') \
                 and not res.vkeys.get('pool-transfer-failed'):
             check_deep(ns, res, pool)
@@ -435,6 +437,82 @@ def shard(args):
             except Exception:  # noqa
                 pass
     return res.to_dict()
+
+
+def _worker_build(args):
+    """Runs in a pool worker: build trees as fast as possible while the
+    other workers do the same (they share one id counter)."""
+    import os
+    import random
+    seed, n = args
+    from vlib import dd
+    ns = dd.load()
+    r = random.Random(seed)
+    out = []
+    for _ in range(n):
+        t = rand_tree(r, r.choice([1, 2, 3]), 3)
+        node = refmodel.build(ns.Node, t)
+        out.append((t, ids_of(node), node))
+    return os.getpid(), out
+
+
+def check_concurrent_allocation(ns, res, r):
+    """Identities handed out while several processes create nodes at the
+    same time must be pairwise distinct, and == across trees built in
+    different processes must still follow structure."""
+    ctx = multiprocessing.get_context('fork')
+    pool = ctx.Pool(8)
+    _KEEP.append(pool)
+    try:
+        jobs = [pool.apply_async(_worker_build, ((r.getrandbits(30), 400), ))
+                for _ in range(8)]
+        got = []
+        for j in jobs:
+            try:
+                got.append(j.get(timeout=120))
+            except Exception as e:  # noqa
+                res.violation('pool-transfer-failed',
+                              f'worker failed: {type(e).__name__}: {e}', {})
+                return
+    finally:
+        for p in list(getattr(pool, '_pool', [])):
+            try:
+                p.kill()
+            except Exception:  # noqa
+                pass
+    seen = {}
+    dup = 0
+    trees = []
+    for pid, items in got:
+        for t, ids, node in items:
+            res.count('evaluations')
+            res.count('concurrently_built_trees')
+            trees.append((pid, t, node))
+            if ids != ids_of(node):
+                res.violation('pool-return', 'ids changed in transfer',
+                              {'tree': t})
+            for i in ids:
+                if i in seen and seen[i] != pid:
+                    dup += 1
+                seen.setdefault(i, pid)
+    res.count('concurrently_allocated_ids', len(seen))
+    res.add_set('allocating_pids', str(len({p for p, _ in got})))
+    if dup:
+        res.violation(
+            'id-allocated-twice',
+            f'{dup} node ids were handed out by more than one process while '
+            f'8 workers created nodes concurrently', {'duplicates': dup})
+    # equality across processes still follows structure
+    for _ in range(4000):
+        (pa, ta, a), (pb, tb, b) = r.sample(trees, 2)
+        if (a == b) is not (ta == tb):
+            res.violation(
+                'eq-disagrees-with-structure',
+                f'trees built in different processes compare '
+                f'{a == b} but structures are '
+                f'{"equal" if ta == tb else "different"}',
+                {'a': ta, 'b': tb})
+            break
 
 
 def check_deep(ns, res, pool):
@@ -510,7 +588,9 @@ def run(ctx):
         '(one leaf changed, child appended/removed, leaf<->one-element list, '
         'prefix, reordered, extra nesting, identical copy, independent); '
         'every 5th tree goes through a real fork pool of 4 workers and '
-        'back; binary_search contract for n in 0..599 and some large n; '
+        'back; 8 workers building trees concurrently (ids must be distinct '
+        'across processes); binary_search contract for n in 0..599 and some '
+        'large n; '
         'distinct non-trivial = distinct non-leaf trees')
     ctx.assumptions = [
         'leaf texts are encodable Unicode (lone surrogates cannot come from '
